@@ -42,6 +42,7 @@ def _impl(tier, seed, search):
         return all(a is not None and np.shape(a) == np.shape(r) and np.allclose(np.asarray(a, float), r, atol=1e-13) for a, r in zip(X.data, ref))
     def other(c):
         return 'SO3' if c != 'SO3' else 'SE3'
+    SUBCLASS = dict(SO3='SE3', SO2='SE2', Quaternion='UnitQuaternion')     # a subclass instance is still an object of a different class
     # ---- operations: each returns (label, apply_to_obj, apply_to_ref) -------------------------
     def ops_for(c, n):
         cls, one = CL[c]
@@ -54,7 +55,8 @@ def _impl(tier, seed, search):
             out.append((f'insert({i})', 'insert', i))
         out += [('append', 'append', None), ('extend2', 'extend', 2), ('extend1', 'extend', 1), ('reverse', 'reverse', None), ('clear', 'clear', None), ('pop()', 'pop', None),
                 ('iter', 'iter', None), ('append-foreign', 'append-foreign', None), ('append-multi', 'append-multi', None), ('set-foreign', 'set-foreign', 0), ('insert-multi', 'insert-multi', 0),
-                ('extend-foreign', 'extend-foreign', None)]
+                ('extend-foreign', 'extend-foreign', None), ('insert-foreign', 'insert-foreign', 0), ('append-subclass', 'append-subclass', None),
+                ('set-subclass', 'set-subclass', 0), ('extend-subclass', 'extend-subclass', None), ('insert-subclass', 'insert-subclass', 0)]
         return out
     def apply(c, X, ref, kind, arg):
         """performs the operation on both; returns None if they agree, else a description"""
@@ -108,16 +110,21 @@ def _impl(tier, seed, search):
             if len(items[1]) != len(ref): return f'iteration yielded {len(items[1])} items for length {len(ref)}'
             for it, r in zip(items[1], ref):
                 if type(it) is not cls or len(it) != 1 or not np.allclose(np.asarray(it.data[0], float), r): return 'iteration yielded a wrong item / class'
-        elif kind in ('append-foreign', 'set-foreign', 'extend-foreign'):
-            oc, oone = CL[other(c)]
+        elif kind in ('append-foreign', 'set-foreign', 'extend-foreign', 'insert-foreign', 'append-subclass', 'set-subclass', 'extend-subclass', 'insert-subclass'):
+            if kind.endswith('subclass'):
+                if c not in SUBCLASS: return None
+                oc, oone = CL[SUBCLASS[c]]; kind = kind.replace('subclass', 'foreign')
+            else:
+                oc, oone = CL[other(c)]
             F = oc(oone())
             if kind == 'append-foreign': a = outcome(lambda: X.append(F))
             elif kind == 'extend-foreign': a = outcome(lambda: X.extend(F))
+            elif kind == 'insert-foreign': a = outcome(lambda: X.insert(arg, F))
             else:
                 if len(ref) == 0: return None
                 def sx(): X[arg] = F
                 a = outcome(sx)
-            if a[0] == 'ok': return f'{kind}: an object of class {other(c)} was accepted'
+            if a[0] == 'ok': return f'{kind}: an object of class {type(F).__name__} was accepted by {c}'
             if not same(X, before): return f'{kind}: the object changed although the operation was rejected'
             return None
         elif kind in ('append-multi', 'insert-multi'):
@@ -139,7 +146,7 @@ def _impl(tier, seed, search):
         for start in range(0, maxstart + 1):
             for d in range(1, depth + 1):
                 for seq in itertools.product(range(len(alphabet)), repeat=d):
-                    if d >= 3 and any(alphabet[i][1] in ('iter', 'append-foreign', 'append-multi', 'set-foreign', 'insert-multi', 'extend-foreign') for i in seq[:-1]): continue
+                    if d >= 3 and any(alphabet[i][1] in ('iter', 'append-multi', 'insert-multi') or alphabet[i][1].endswith(('foreign', 'subclass')) for i in seq[:-1]): continue
                     X, ref = build(c, start)
                     for si, oi in enumerate(seq):
                         label, kind, arg = alphabet[oi]
@@ -190,8 +197,12 @@ def _impl(tier, seed, search):
         try:
             E = cls.Empty()
             if len(E) != 0: L.fail('Empty', f'{c}.Empty() has length {len(E)}', dict(cls=c))
+            for na in range(0, 5):
+                L.count('alloc')
+                An = cls.Alloc(na)
+                if len(An) != na or type(An) is not cls: L.fail('Alloc', f'{c}.Alloc({na}) has length {len(An)}', dict(cls=c, n=na))
+                if len(list(iter(An))) != na: L.fail('Alloc-iter', f'iterating {c}.Alloc({na}) yields {len(list(iter(An)))} items', dict(cls=c, n=na))
             A = cls.Alloc(3)
-            if len(A) != 3 or type(A) is not cls: L.fail('Alloc', f'{c}.Alloc(3) has length {len(A)}', dict(cls=c))
             for k_, v in enumerate(vals): A[k_] = cls(v)
             if not same(A, vals): L.fail('Alloc-assign', f'{c}.Alloc(3) then item assignment does not hold the assigned values', dict(cls=c))
         except Exception as e:
@@ -222,7 +233,7 @@ def correspondence(tier, seed):
 def _corr(tier, seed):
     """rows for the Lean models: `logic ul …` answered by the real classes, `logic pylist …` answered by a CPython list"""
     import numpy as np
-    from spatialmath import SO2, SE3, UnitQuaternion, Twist3, SO3
+    from spatialmath import SO2, SE2, SE3, UnitQuaternion, Twist3, SO3
     g = inputs.rng(seed + 77)
     MK = dict(SE3=(SE3, lambda k: SE3(float(k), 0, 0), lambda a: int(round(a[0, 3]))),
               SO2=(SO2, lambda k: SO2(0.005 * k), lambda a: int(round(math.atan2(a[1, 0], a[0, 0]) / 0.005))),
@@ -239,7 +250,7 @@ def _corr(tier, seed):
         cls, mk, ident = MK[cname]
         X = build(cname, start); outs = []
         def arg(a):
-            if a == 'f': return SO3() if cname != 'SO3' else SE3()
+            if a == 'f': return SE2() if cname == 'SO2' else SO3()      # for SO2 the foreign object is an instance of its subclass
             if a[0] == 's': return mk(int(a[1:]))
             return build(cname, [int(t) for t in a[1:].split(',')])
         for op in ops:
